@@ -55,19 +55,24 @@ class WFQ(Scheduler):
         for class_id in self.weights.keys():
             self.finish_times[class_id] = 0.0
 
+    def serve(self, packet: Packet) -> ProcessGenerator:
+        """Transmit one packet and do the departure bookkeeping in the same
+        step, so that an arrival in the instant of the departure already sees
+        the updated virtual time, backlog and active set."""
+        yield from self.send_packet(packet)
+        self.update_vtime()
+        class_id = self.flow2class(packet.flow_id)
+        self.class_backlog[class_id] -= 1
+        if self.class_backlog[class_id] == 0:
+            self.active_set.remove(class_id)
+        if len(self.active_set) == 0:
+            self.reset_vtime()
+        self.last_time = self.env.now
+
     def run(self, env: Environment) -> ProcessGenerator:
         while True:
             item: PriorityItem = yield self.store.get()
-            packet: Packet = item.item
-            yield env.process(self.send_packet(packet))
-            self.update_vtime()
-            class_id = self.flow2class(packet.flow_id)
-            self.class_backlog[class_id] -= 1
-            if self.class_backlog[class_id] == 0:
-                self.active_set.remove(class_id)
-            if len(self.active_set) == 0:
-                self.reset_vtime()
-            self.last_time = env.now
+            yield env.process(self.serve(item.item))
 
     def put(self, packet: Packet):
         class_id = self.flow2class(packet.flow_id)
